@@ -18,7 +18,7 @@ RULE = (
     "node: every output must equal its stable value. Non-trivial: c is cyclic and has >= 1 stable state. "
     "Distinct by digest."
 )
-ASSUMPTIONS = ["reference semantics cgv.refsim (stable states = consistent valuations)", "circuits of <= 12 nodes", "benign names"]
+ASSUMPTIONS = ["reference semantics cgv.refsim (stable states = consistent valuations)", "circuits of <= 12 nodes"]
 EXHAUSTIVE_NOTE = "core: 2- and 3-gate rings over every mix of {buf, not, and, nor, xor} with one input, SR latches (nor / nand), a ring with an input that is also an output"
 EXAMPLES = {"quick": 1500, "thorough": 30000}
 
@@ -40,8 +40,14 @@ def core(ctx):
 
 @st.composite
 def _case(draw, ctx):
+    pools = (S.BENIGN,)
+    adv = False
+    if draw(st.integers(0, 3)) == 0:
+        # names that look like the names the transform generates (copy prefixes, aux inputs)
+        pools = (S.BENIGN[:8], ["c0_en", "c1_sel", "c0_a", "c1_b", "c2_x", "aux_in_r", "aux_in_a", "r", "a_aux_in_b", "c0_aux_in_a"])
+        adv = True
     spec = draw(S.circuit_spec(min_inputs=0, max_inputs=3, min_gates=2, max_gates=9, max_fanin=3, cyclic=True,
-                               selfloops=False, io_outputs=True))
+                               selfloops=False, io_outputs=True, pools=pools))
     gates = [x for x in spec["nodes"] if x[1] in S.ALL_GATES]
     nary = [x for x in gates if x[1] in S.NARY]
     for _ in range(draw(st.integers(0, 3))):
@@ -51,7 +57,7 @@ def _case(draw, ctx):
         h = draw(st.sampled_from([x for x in gates if x[0] != g[0]]))
         if h[0] not in g[2]:
             g[2] = g[2] + [h[0]]
-    return {"spec": spec}
+    return {"spec": spec, "adv_names": adv}
 
 
 def strategy(ctx):
@@ -76,7 +82,13 @@ def check(case, ctx):
         return {"nontrivial": False, "labels": ["skipped_too_big"]}
     snap = refsim.snapshot(c)
     cyc = refsim.has_cycle(c)
-    r = need(lib(cg.tx.acyclic_unroll, c), "acyclic_unroll", "acyclic_unroll(c)")
+    out = lib(cg.tx.acyclic_unroll, c)
+    if case.get("adv_names") and not out.ok and out.type == "ValueError":
+        # with names that look like generated names a genuine clash between a node and a generated
+        # name is possible; refusing with ValueError is then legitimate (the property does not speak
+        # about names) -- only a *returned* circuit is judged
+        return {"nontrivial": False, "labels": ["refused_with_generated_looking_names"]}
+    r = need(out, "acyclic_unroll", "acyclic_unroll(c)")
     if refsim.snapshot(c) != snap:
         raise Violation("acyclic_unroll|mutates_argument", "argument modified")
     if refsim.has_cycle(r):
